@@ -888,6 +888,52 @@ func runUnder(proto *lua.FunctionProto, c cfgT, maxSteps int64) *progRun {
 	pr.viol = h.Violations
 	pr.runaway = h.Runaway
 	pr.steps = h.Steps
+	// the Go API with argument lists around the registry's size: a protected CallByParam returns the result or a limit
+	// error - it never panics - and the state keeps working
+	if !h.Runaway && pr.out.Escaped == "" {
+		lim := c.o.RegistrySize
+		if c.o.RegistryMaxSize > lim {
+			lim = c.o.RegistryMaxSize
+		}
+		if lim <= 6000 {
+			sel := L.GetGlobal("select")
+			top := L.GetTop()
+			for _, n := range []int{lim - 4, lim - 2, lim - 1, lim, lim + 1, 2 * lim, 3, lim - 3} {
+				if n < 0 {
+					continue
+				}
+				args := make([]lua.LValue, n+1)
+				args[0] = lua.LString("#")
+				for i := 1; i <= n; i++ {
+					args[i] = lua.LNil
+				}
+				var err error
+				var panicked interface{}
+				func() {
+					defer func() { panicked = recover() }()
+					err = L.CallByParam(lua.P{Fn: sel, NRet: 1, Protect: true}, args...)
+				}()
+				switch {
+				case panicked != nil:
+					pr.viol = append(pr.viol, fmt.Sprintf("a protected CallByParam with %d arguments left the Go API as a panic: %v", n+1, panicked))
+				case err != nil && !strings.Contains(err.Error(), "overflow"):
+					pr.viol = append(pr.viol, fmt.Sprintf("a protected CallByParam with %d arguments failed with something else than a limit error: %v", n+1, err))
+				case err == nil:
+					if v, ok := L.Get(-1).(lua.LNumber); !ok || int(v) != n {
+						pr.viol = append(pr.viol, fmt.Sprintf("a protected CallByParam of select('#', ...) with %d values returned %v", n, L.Get(-1)))
+					}
+					L.Pop(1)
+				}
+				if L.GetTop() != top {
+					pr.viol = append(pr.viol, fmt.Sprintf("after a protected CallByParam with %d arguments (error: %v) the stack height is %d, it was %d", n+1, err, L.GetTop(), top))
+					L.SetTop(top)
+				}
+				if len(pr.viol) > 0 {
+					break
+				}
+			}
+		}
+	}
 	return pr
 }
 
